@@ -42,7 +42,9 @@ type Proxy struct {
 	sinceMons  map[string]*sinceMon // monitor id (JSON text) -> what the client holds
 	sinceReqs  map[string]sinceReq  // request id (JSON text) -> the monitor_cond_since request
 	sinceN     int
-	SinceFound int // replies answered with found = true
+	groupID    string          // id of the run of update notifications being forwarded
+	groupMons  map[string]bool // monitors that have had theirs
+	SinceFound int             // replies answered with found = true
 }
 
 type pair struct {
